@@ -354,6 +354,7 @@ def run(ctx):
              'variables in task_ex.published and merge the evaluated global '
              'variables into the workflow context whenever the task has a '
              'publish spec for its state', ctx.loc(pv))
+    sd = ctx.sd
     INp, kp = sd.analyze(pcfg, pv, [('task_ex.state', sd.state_domain)])
     gpc = U.calls_in(pcfg, 'get_publish')
     pvals = sd.values_at(INp, kp, gpc[0][0], 'task_ex.state') if gpc \
